@@ -35,6 +35,12 @@ static void axis_lists(long d, bool thorough, const std::function<void(const L&)
 
 void nmc_enumerate(const nmc::Tier& t, const nmc::Sink& emit) {
     long e = t.thorough() ? 4 : 3;
+    // operands whose DIMENSION is known statically (fixed-dim ndarray, nested fixed arrays): a reduction over every axis then has a SCALAR result type and
+    // goes through the view's conversion operator instead of its indexing operator (a path the all-dynamic operands below never take; found missing by a seeded change)
+    for (int op : {ADD, MUL, MAX}) for (long kind = 0; kind < 1; kind++)   /* a bounded buffer under a fixed-dim shape is rejected by eval at compile time */ for (long in = 0; in <= 1; in++) for (long kd = 0; kd <= 2; kd++) {
+        for (long n = 1; n <= e; n++) for (long sp = 0; sp < 4; sp++) emit(Case("red_fd1", {{op}, {n}, {kind, sp}, {kd, in}}));
+        for (long n = 1; n <= 3; n++) for (long m = 1; m <= 3; m++) for (long sp = 0; sp < 6; sp++) emit(Case("red_fd2", {{op}, {n, m}, {kind, sp}, {kd, in}}));
+    }
     nmc::each_shape_range(1, 4, e, [&](const L& s) {
         long d = (long)s.size();
         // ADD: the full option cross; other ops: keepdims absent/True, no initial/dtype (the option plumbing is shared)
@@ -142,6 +148,36 @@ Outcome nmc_execute(const Case& c) {
         if (o == "red_none") return verdict2(run_op(op, a, nm::None, fl), want, nontriv);
         if (o == "red1") { int ax = (int)c.a[2][0]; return verdict2(run_op(op, a, ax, fl), want, nontriv); }
         auto ax = to_il(c.a[2]); return verdict2(run_op(op, a, ax, fl), want, nontriv);
+    }
+    if (o == "red_fd1" || o == "red_fd2") {
+        int op = (int)c.a[0][0]; const L& s = c.a[1]; long kind = c.a[2][0], sp = c.a[2][1], kd = c.a[3][0], in = c.a[3][1];
+        RArr r = source(s, op); bool keep = kd == 1; double init = 5; const double* ip = in ? &init : nullptr;
+        auto f = [&](double x, double y) { return apply_op(op, x, y); };
+        L axes; if (o == "red_fd1") axes = {(sp % 2) ? -1L : 0L}; else { static const L A[6] = {{0, 1}, {-1, -2}, {1, 0}, {0}, {-1}, {0, 1}}; axes = A[sp]; }
+        ROpt want = ref::reduce(r, &axes, keep, ip, f);
+        bool nontriv = r.size() >= 2;
+        auto with_array = [&](auto&& fn) {   // kind 0: ndarray_t with a fixed-dim shape (array<size_t,D>) and a dynamic buffer; kind 1: fixed_ndarray-like nested nmtools_array is not resizable, use hybrid shape static_vector
+            (void)kind;
+            if (o == "red_fd1") { na::ndarray_t<nmtools_list<long>, nmtools_array<size_t, 1>> a; a.resize(to_sl(s)); for (size_t i = 0; i < r.data.size(); i++) a.data_[i] = (long)r.data[i]; return fn(a); }
+            else { na::ndarray_t<nmtools_list<long>, nmtools_array<size_t, 2>> a; a.resize(to_sl(s)); for (size_t i = 0; i < r.data.size(); i++) a.data_[i] = (long)r.data[i]; return fn(a); }
+        };
+        auto run = [&](const auto& a) -> std::pair<Obs, Obs> {
+            auto with_axis = [&](auto dt, auto inv, auto kdv) -> std::pair<Obs, Obs> {
+                auto go = [&](const auto& ax) -> std::pair<Obs, Obs> {
+                    if (op == ADD) return obs2(view::reduce_add(a, ax, dt, inv, kdv));
+                    if (op == MUL) return obs2(view::reduce_multiply(a, ax, dt, inv, kdv));
+                    return obs2(view::reduce_maximum(a, ax, dt, inv, kdv));
+                };
+                using A1_ = meta::remove_cvref_t<decltype(a)>;
+                if constexpr (meta::len_v<typename A1_::shape_type> == 1) { switch (sp) { case 0: return go((int)0); case 1: return go((int)-1); case 2: return go(meta::ct_v<0>); default: return go(meta::ct_v<-1>); } }
+                else switch (sp) { case 0: return go(nmtools_array<int, 2>{0, 1}); case 1: return go(nmtools_array<int, 2>{-1, -2}); case 2: return go(nmtools_tuple{meta::ct_v<1>, meta::ct_v<0>}); case 3: return go((int)0); case 4: return go(meta::ct_v<-1>); default: return go(to_il(L{0, 1})); }
+            };
+            // keepdims=None on a fixed-dim-2 operand is rejected at compile time by the library (loud): spelled False there
+            auto with_kd = [&](auto inv) -> std::pair<Obs, Obs> { if (kd == 1) return with_axis(nm::None, inv, nm::True); if (kd == 2) return with_axis(nm::None, inv, nm::False);
+                using A_ = meta::remove_cvref_t<decltype(a)>; if constexpr (meta::len_v<typename A_::shape_type> == 1) return with_axis(nm::None, inv, nm::None); else return with_axis(nm::None, inv, nm::False); };
+            if (in) return with_kd((long)5); return with_kd(nm::None);
+        };
+        return verdict2(with_array(run), want, nontriv);
     }
     if (o == "acc") {
         int op = (int)c.a[0][0]; const L& s = c.a[1]; RArr r = source(s, op); auto a = make_arr<long>(r); int ax = (int)c.a[2][0];
